@@ -58,3 +58,9 @@ package probing
 //@   ensures success ==> (exists k int :: 0 <= k && k < len(anyslice(nestedField(ucontent(obj.Object), "status.conditions"))) && condMatch(anyslice(nestedField(ucontent(obj.Object), "status.conditions"))[k], cp.Type) && anymap(anyslice(nestedField(ucontent(obj.Object), "status.conditions"))[k])["status"] == boxstr(cp.Status) && ("status" in anymap(anyslice(nestedField(ucontent(obj.Object), "status.conditions"))[k])) && !(nestedIntOk(ucontent(anymap(anyslice(nestedField(ucontent(obj.Object), "status.conditions"))[k])), "observedGeneration") && nestedIntVal(ucontent(anymap(anyslice(nestedField(ucontent(obj.Object), "status.conditions"))[k])), "observedGeneration") != genOf(ucontent(obj.Object))) && (forall j int :: 0 <= j && j < k ==> !condMatch(anyslice(nestedField(ucontent(obj.Object), "status.conditions"))[j], cp.Type)))
 //@   loop 1 invariant 0 <= idx && idx <= len(conditions)
 //@   loop 1 invariant forall j int :: 0 <= j && j < idx ==> !condMatch(conditions[j], cp.Type)
+
+// A CEL probe reports failures under its own message: NewCELProbe returns a probe object of its own carrying exactly the
+// message it was given (nothing is shared between probes that happen to have the same rule), and writes nothing else.
+//@ func package-operator.run/pkg/probing.NewCELProbe
+//@   assigns mem
+//@   ensures [C17] result1 == nil && result0 != nil ==> result0.Message == message
